@@ -674,7 +674,13 @@ func (w *W) opMerge() string {
 	desc := ""
 	srcKind := 0
 	if w.F.CfgSources {
-		srcKind = t.Weighted([]int{2, 3, 2, 2}, "merge-src-kind")
+		srcKind = t.Weighted([]int{2, 3, 2, 2, 1, 1}, "merge-src-kind")
+		if srcKind >= 4 && t.Bool("into-empty-destination") {
+			// a fresh, empty destination
+			dst = w.addHandle(ucfg.New(), &model.Node{K: model.KSub})
+			live = w.live()
+			w.R.Tracef("h%d := New()", dst.ID)
+		}
 	} else if t.Chance(1, 6, "merge-self-or-handle") {
 		srcKind = 1
 	}
@@ -701,7 +707,7 @@ func (w *W) opMerge() string {
 		if srcH == nil {
 			return ""
 		}
-		if srcKind >= 2 && w.R.Avoid["O9"] && srcH.M.Parent == nil {
+		if srcKind >= 2 && srcKind <= 3 && w.R.Avoid["O9"] && srcH.M.Parent == nil {
 			srcKind = 1
 		}
 		if srcH == dst && srcKind >= 2 {
@@ -712,13 +718,38 @@ func (w *W) opMerge() string {
 			srcTree = srcH.M.Copy()
 			srcVal = srcH.C
 			desc = fmt.Sprintf("h%d", srcH.ID)
+		case 4:
+			// the Config passed by value
+			srcTree = srcH.M.Copy()
+			srcVal = *srcH.C
+			desc = fmt.Sprintf("*h%d (by value)", srcH.ID)
+			embed = "by-value"
+		case 5:
+			// a pointer to the caller's pointer
+			srcTree = srcH.M.Copy()
+			ptr := srcH.C
+			srcVal = &ptr
+			desc = fmt.Sprintf("&&h%d (**Config)", srcH.ID)
+			embed = "ptr-ptr"
 		case 2:
 			k := Names[t.Choose(len(Names), "embed-key")]
 			srcTree = model.Dict()
 			srcTree.SetD(k, srcH.M.Copy())
-			srcVal = map[string]interface{}{k: srcH.C}
+			m := map[string]interface{}{k: srcH.C}
+			srcVal = m
 			desc = fmt.Sprintf("map{%s: h%d}", k, srcH.ID)
 			embed = "map"
+			// the same input may add a setting below the embedded config in dotted spelling
+			if sub := srcTree.D[k]; w.Sep != "" && sub.K == model.KSub && len(sub.A) == 0 && sub.Sticky&2 == 0 && t.Chance(1, 3, "embed-dotted-sibling") {
+				if _, taken := sub.D["zz"]; !taken {
+					v := w.G.Prim()
+					sub.SetD("zz", v)
+					m[k+".zz"] = leaf(v)
+					desc = fmt.Sprintf("map{%s: h%d, %s.zz: %s}", k, srcH.ID, k, v.Canon())
+					embed = "map+dotted"
+					w.R.Probe("merge: input adds a dotted setting below an embedded config")
+				}
+			}
 		case 3:
 			srcTree = model.List()
 			srcTree.Push(srcH.M.Copy())
